@@ -38,10 +38,13 @@ VARIABLES kind, uc, ooo,      \* the case: block kinds, upload-compacted, allow-
           last,               \* result of the last finished Sync: "none" | "ok" | "err"
           crashes, fails, everComplete,
           pruned,             \* the directory (tenant) was removed by MultiTSDB.Prune
-          localGone           \* local blocks deleted by the local TSDB retention
-vars == <<kind, uc, ooo, bkt, file, pc, i, has, upl, uerrs, last, crashes, fails, everComplete, pruned, localGone>>
+          localGone,          \* local blocks deleted by the local TSDB retention
+          there,              \* blocks that exist locally so far (a block may appear LATER than newer ones: backfill,
+                              \* out-of-order head compaction, a compacted block becoming eligible after a restart)
+          dirAtSync           \* the blocks the running / last Sync found in the directory (blockMetasFromOldest)
+vars == <<kind, uc, ooo, bkt, file, pc, i, has, upl, uerrs, last, crashes, fails, everComplete, pruned, localGone, there, dirAtSync>>
 Const == UNCHANGED <<kind, uc, ooo>>
-LocalKeep == UNCHANGED <<pruned, localGone>>
+LocalKeep == UNCHANGED <<pruned, localGone, there, dirAtSync>>
 
 Local(b) == [b |-> b, level |-> IF kind[b] = "L2" THEN 2 ELSE 1, empty |-> kind[b] = "E", files |-> FilesOf(b)]
 Locals == { Local(b) : b \in Blocks }
@@ -54,15 +57,17 @@ Init == /\ kind \in [Blocks -> Kinds] /\ uc \in BOOLEAN /\ ooo \in BOOLEAN
         /\ last = "none" /\ crashes = 0 /\ fails = 0
         /\ everComplete = CompleteBlocks(bkt, ListedNow(bkt))
         /\ pruned = FALSE /\ localGone = {}
+        /\ there \in ({Blocks} \cup { Blocks \ {b} : b \in Blocks }) /\ dirAtSync = {}     \* at most one block appears late
 
 SyncStart == /\ pc = "idle"
              /\ has' = file.uploaded
              /\ upl' = {} /\ uerrs' = 0 /\ i' = 1 /\ pc' = "loop"
-             /\ UNCHANGED <<bkt, file, last, crashes, fails, everComplete>> /\ Const /\ LocalKeep
+             /\ dirAtSync' = IF pruned THEN {} ELSE there \ localGone
+             /\ UNCHANGED <<bkt, file, last, crashes, fails, everComplete, pruned, localGone, there>> /\ Const
 
 (* loop head for block i: the checks that need no bucket call *)
 Loop == /\ pc = "loop" /\ i <= N
-        /\ IF pruned \/ i \in localGone THEN i' = i + 1 /\ pc' = "loop" /\ UNCHANGED upl     \* no longer on disk
+        /\ IF i \notin dirAtSync THEN i' = i + 1 /\ pc' = "loop" /\ UNCHANGED upl     \* not (or no longer) on disk
            ELSE IF i \in has THEN upl' = upl \cup {i} /\ i' = i + 1 /\ pc' = "loop"
            ELSE IF kind[i] = "E" \/ (kind[i] = "L2" /\ ~uc) THEN i' = i + 1 /\ pc' = "loop" /\ UNCHANGED upl
            ELSE pc' = "exists" /\ UNCHANGED <<i, upl>>
@@ -110,25 +115,29 @@ Crash == /\ crashes < MaxCrashes /\ pc # "idle"
 (* MultiTSDB.Prune -> tenant.shouldBeMarkedInactive -> Shipper.AreAllBlocksUploaded: every block directory *)
 (* still on disk is listed in the shipper file (idleness and "head compaction ran" are abstracted into     *)
 (* the action being enabled at any time, also in the middle of a Sync: it only takes a read lock).         *)
-AllRecorded == \A b \in Blocks \ localGone : b \in file.uploaded
+AllRecorded == \A b \in there \ localGone : b \in file.uploaded
 Prune == /\ ~pruned /\ AllRecorded /\ pruned' = TRUE
-         /\ UNCHANGED <<bkt, file, pc, i, has, upl, uerrs, last, crashes, fails, everComplete, localGone>> /\ Const
+         /\ UNCHANGED <<bkt, file, pc, i, has, upl, uerrs, last, crashes, fails, everComplete, localGone, there, dirAtSync>> /\ Const
 (* tenant.blocksToDelete: the TSDB retention may delete a local block only if the shipper file lists it *)
 LocalRetention == /\ ~pruned
-                  /\ \E b \in Blocks \ localGone : b \in file.uploaded /\ localGone' = localGone \cup {b}
-                  /\ UNCHANGED <<bkt, file, pc, i, has, upl, uerrs, last, crashes, fails, everComplete, pruned>> /\ Const
+                  /\ \E b \in there \ localGone : b \in file.uploaded /\ localGone' = localGone \cup {b}
+                  /\ UNCHANGED <<bkt, file, pc, i, has, upl, uerrs, last, crashes, fails, everComplete, pruned, there, dirAtSync>> /\ Const
+
+(* a block shows up in the directory later than (possibly newer) blocks that are already shipped *)
+Appear == /\ ~pruned /\ \E b \in Blocks \ there : there' = there \cup {b}
+          /\ UNCHANGED <<bkt, file, pc, i, has, upl, uerrs, last, crashes, fails, everComplete, pruned, localGone, dirAtSync>> /\ Const
 
 Step == SyncStart \/ Loop \/ Exists \/ Overlap \/ UpSeg \/ UpIdx \/ UpMeta \/ WriteFile
-Next == Step \/ Fail \/ Crash \/ Prune \/ LocalRetention
+Next == Step \/ Fail \/ Crash \/ Prune \/ LocalRetention \/ Appear
 Spec == Init /\ [][Next]_vars /\ WF_vars(Step)
 
 (* ---- C35 ---- *)
 C35_RecordedWereSeenComplete == C35_RecordedUnseen(file.uploaded, everComplete) = {}
 C35_SuccessfulSyncShippedAll ==
-    (last = "ok" /\ pc = "idle") => C35_NotShipped(Locals, uc, bkt, ListedNow(bkt), {}, {}) = {}    \* (blocks removed locally were shipped before, see below)
+    (last = "ok" /\ pc = "idle") => C35_NotShipped({ x \in Locals : x.b \in dirAtSync }, uc, bkt, ListedNow(bkt), {}, {}) = {}    \* every block the sync found on disk
 (* phase 2: local data goes away only after it was shipped *)
 NonEmptyLocals == { x \in Locals : ~x.empty }
-C35_PrunedOnlyWhenShipped == pruned => C35_PrunedUnshipped({ x \in NonEmptyLocals : x.b \notin localGone }, bkt, ListedNow(bkt), {}, {}) = {}
+C35_PrunedOnlyWhenShipped == pruned => C35_PrunedUnshipped({ x \in NonEmptyLocals : x.b \in there \ localGone }, bkt, ListedNow(bkt), {}, {}) = {}
 C35_LocalDeleteOnlyWhenShipped == C35_LocalGoneUnseen({ b \in localGone : kind[b] # "E" }, everComplete) = {}
 C28_Holds == C28_Incomplete(bkt, ListedNow(bkt)) = {}
 (* Once crashes and failures are used up a sync succeeds - unless the shipper is wedged: a partial  *)
@@ -136,8 +145,8 @@ C28_Holds == C28_Incomplete(bkt, ListedNow(bkt)) = {}
 (* (Not part of the statement of C35, which only speaks about successful syncs; TLC found the     *)
 (* wedge as a counterexample to the unconditional form.  See notes/C35.md.)                       *)
 Wedged == /\ ~ooo /\ uc /\ PartialDirs(bkt) # {}
-          /\ \E b \in Blocks : kind[b] = "L2" /\ MetaO(b) \notin bkt /\ b \notin file.uploaded
-          /\ \A b \in Blocks : (kind[b] = "L1" /\ MetaO(b) \notin bkt) => \E c \in Blocks : c < b /\ kind[c] = "L2" /\ MetaO(c) \notin bkt
+          /\ \E b \in there : kind[b] = "L2" /\ MetaO(b) \notin bkt /\ b \notin file.uploaded
+          /\ \A b \in there : (kind[b] = "L1" /\ MetaO(b) \notin bkt) => \E c \in there : c < b /\ kind[c] = "L2" /\ MetaO(c) \notin bkt
 EventuallyShipped == <>(last = "ok" /\ pc = "idle") \/ <>[]Wedged
 
 (* ---- leg B ---- *)
@@ -145,9 +154,16 @@ CasesFile == IF "VERIF_CASES" \in DOMAIN IOEnv THEN IOEnv.VERIF_CASES ELSE "case
 BlockOpts == { [kind |-> k, pre |-> p] : k \in CaseKinds, p \in CasePre }
 BlockSeqs == UNION { [1..n -> BlockOpts] : n \in 1..CaseN }
 CrashSeqs(n) == UNION { [1..k -> 1..(3 * n)] : k \in 0..CaseCrashes }
-CaseSet == UNION { { [blocks |-> bs, uc |-> u, ooo |-> o, crashes |-> cr] : u \in BOOLEAN, o \in BOOLEAN, cr \in CrashSeqs(Len(bs)) } : bs \in BlockSeqs }
+(* late = the block (index) that appears in the directory only after the others were synced (0 = none); uc2 = the   *)
+(* upload-compacted setting of the shipper started after that (a restart may switch it on)                            *)
+CaseSet == UNION { { [blocks |-> bs, uc |-> u, ooo |-> o, crashes |-> cr, late |-> lt, uc2 |-> u2] :
+                       u \in BOOLEAN, o \in BOOLEAN, cr \in CrashSeqs(Len(bs)), lt \in 0..Len(bs), u2 \in BOOLEAN } : bs \in BlockSeqs }
 (* a second crash point only for one-block cases, and early in the run (keeps the case count in budget) *)
-CaseOK(c) == \A k \in DOMAIN c.crashes : k = 1 \/ (c.crashes[k] <= 3 /\ Len(c.blocks) = 1)
+CaseOK(c) == /\ \A k \in DOMAIN c.crashes : k = 1 \/ (c.crashes[k] <= 3 /\ Len(c.blocks) = 1)
+             /\ (c.uc => c.uc2)
+             (* histories with a late block / a switched setting: without crashes and without out-of-order uploads *)
+             /\ ((c.late # 0 \/ c.uc2 # c.uc) => (c.crashes = <<>> /\ ~c.ooo /\ \A k \in DOMAIN c.blocks : c.blocks[k].pre = "absent"))
+             /\ (c.late # 0 => Len(c.blocks) > 1)
 ASSUME ndJsonSerialize(CasesFile, SetToSeq({ c \in CaseSet : CaseOK(c) }))
 
 (* phase 2: scenarios for the real receive.MultiTSDB (file <cases>.mt): tenants[i] = blocks of tenant i; ops over    *)
